@@ -22,6 +22,13 @@ def call_record(a_vals, b_vals, dta, dtb):
     try:
         a = np.array(a_vals, dtype=np.dtype(dta))
         b = np.array(b_vals, dtype=np.dtype(dtb))
+        layout = (len(a_vals) + 2 * len(b_vals)) % 4
+        if layout == 1 and len(a):
+            wide = np.zeros(2 * len(a), dtype=a.dtype); wide[::2] = a; a = wide[::2]              # strided view
+        elif layout == 2 and len(b):
+            rev = np.ascontiguousarray(b[::-1]); b = rev[::-1]                                    # negative stride
+        elif layout == 3 and len(a):
+            a = np.asfortranarray(np.stack([a, a], axis=1))[:, 0]                                 # column of a Fortran-ordered matrix
         assert [int(x) for x in a] == list(a_vals) and [int(x) for x in b] == list(b_vals)
         ca, cb = a.copy(), b.copy()
         r['dab'] = f32_fields(jaccarddist(a, b))
@@ -68,7 +75,7 @@ class ExhaustiveSubsets(Fam):
         U = 4 if ctx.tier == 'quick' else 6
         self.rule = (f'every ordered pair of subsets of a {U}-element universe x all 6x6 dtype pairs x placements of the '
                      f'universe at the bottom, at the top of the narrower integer range and straddling it (elements above '
-                     f'the narrow maximum only in the wider array); both argument orders and both functions per record; '
+                     f'the narrow maximum only in the wider array); contiguous, strided, negatively strided and column-view arrays; both argument orders and both functions per record; '
                      f'non-trivial = overlapping, unequal, non-empty sets')
         subsets = [[i for i in range(U) if (m >> i) & 1] for m in range(1 << U)]
         for dta, dtb in itertools.product(DTYPES, DTYPES):
